@@ -67,7 +67,23 @@ TraceAUC ==
              <<"DRIFT.auc_model", ~ok \/ \A i \in I :
                   REq(e.out[i], TrapezoidCoded(o, Lo(e.q[i]), Hi(e.q[i]), e.q[i][5], e.q[i][6]))>>}))
 
-Next == TraceNew \/ TraceAUC
+(* the same scored data with a HUGE number (>= 2^31, never seen by TLC) of easy samples on one  *)
+(* side: x = (1 - auc) * (population of that side), which is independent of the huge count:    *)
+(*   1 - AUC = (2 np nn - 2 wins - ties) / (2 (np + ep)(nn + en))                               *)
+TraceAUCHuge ==
+  /\ IsEvent("auc_huge")
+  /\ LET e  == Log[l]
+         o  == store[e.h]
+         o0 == [o EXCEPT !.ep = 0, !.en = 0]
+         loss == RMul(RSub(ROne, MannWhitney(o0)), RInt(Len(o.pos) * Len(o.neg)))
+         want == IF e.side = "neg" THEN RDiv(loss, RInt(NPos(o))) ELSE RDiv(loss, RInt(NNeg(o)))
+     IN /\ UNCHANGED store
+        /\ Report(e, Failing({
+             <<"C07.raised", e.exc = "">>,
+             <<"C07.full_is_mann_whitney_with_huge_easy_counts",
+                  e.exc # "" \/ (e.x[2] > 0 /\ REq(e.x, want))>>}))
+
+Next == TraceNew \/ TraceAUC \/ TraceAUCHuge
 Spec == Init /\ [][Next]_vars
 AllConsumed == TLCGet("stats").diameter - 1 = Len(Log)
 =============================================================================
